@@ -496,6 +496,11 @@ def run(ctx):
                                  burst=[-127 + (k % 255) for k in range(bl)]))
     n_spec_sweep = len(msgs)
     msgs.append(dict(kind="rx", ver=1, fn=0, tn=0, rssi=-47, toa=-32768, nope=True, mod=None, tset=None, tsc=None, ci=1280, burst=None))
+    # NOPE indications built on an object whose modulation / TSC fields are still set (a message object that carried a burst before,
+    # or was filled by rand_hdr()): the NOPE flag alone decides, the datagram is the 11-octet NOPE PDU the definition accepts
+    for i in range(6):
+        for ts in range(4 if i == 0 else 2):
+            msgs.append(dict(kind="rx", ver=1, fn=77, tn=i, rssi=-90, toa=0, nope=True, mod=i, tset=ts, tsc=(i + ts) % 8, ci=-5, burst=None))
     for _ in range(700 if quick else 12000):
         msgs.append(TU.rand_rx(rng) if rng.chance(2, 3) else TU.rand_tx(rng))
     for mi, m in enumerate(msgs):
